@@ -65,7 +65,7 @@ struct TreeWorld : World {
     int U = 0, kstyle = 0, cmpid = 0;
     bool threadsafe = false, counting = false, mt = false;
     qtreetbl_t *t = nullptr;
-    bool unfinished = false;
+    bool unfinished = false, walk_failed = false;
     uint64_t walks_started = 0;
     void *last_root = nullptr;
 
@@ -257,8 +257,10 @@ struct TreeWorld : World {
             int m = op.k == T_WALK ? std::max(1, op.a) : 1; bool newmem = op.d & 1;
             Bytes first; Bytes out;
             if (op.k == T_LOCKEDWALK) { InSut s; t->lock(t); }
+            walk_failed = false;
             for (int i = 0; i < m; i++) {
                 Bytes cur = walk(x, newmem, -1, nullptr);
+                if (walk_failed) { if (op.k == T_LOCKEDWALK) { InSut s; t->unlock(t); } return R_fail(cur); }
                 if (i == 0) first = cur;
                 else if (cur != first) { out = "DIFF@walk" + num(i + 1) + ":" + cur; break; }
             }
@@ -268,7 +270,9 @@ struct TreeWorld : World {
         }
         case T_ABANDON: {
             bool stopped = false;
+            walk_failed = false;
             Bytes cur = walk(x, op.d & 1, std::max(1, op.a), &stopped);
+            if (walk_failed) return R_fail(cur);
             if (stopped) { unfinished = true; x.st.add("probe.walk_abandoned"); }
             return R_ok(cur);
         }
@@ -347,7 +351,18 @@ struct TreeWorld : World {
         for (;;) {
             if (limit >= 0 && cnt >= limit) { if (stopped) *stopped = true; return out; }
             bool more; TCALL(x, more = t->getnext(t, &o, newmem));
-            if (!more) break;
+            if (!more) {
+                if (sim_fault_fired() > 0 && newmem) {
+                    // the step reported failure (ENOMEM): the walk is over for the caller; bring the traversal state back to
+                    // "no walk unfinished" with a complete fault-free walk so that the history stays comparable with the model
+                    walk_failed = true;
+                    sim_fault_suspend(true);
+                    qtreetbl_obj_t c; memset(&c, 0, sizeof c); size_t g2 = 0;
+                    for (;;) { bool m2; TCALL(x, m2 = t->getnext(t, &c, false)); if (!m2 || ++g2 > guard) break; }
+                    sim_fault_suspend(false);
+                }
+                break;
+            }
             Bytes k, v;
             if (o.name) k.assign((const char *)o.name, o.namesize); else k = "(null-name)";
             if (o.data) v.assign((const char *)o.data, o.datasize); else v = "(null-data)";
